@@ -200,6 +200,9 @@ pub fn candidates(case: &Case) -> Vec<Case> {
             for e in shrink_env(&c.env) {
                 out.push(Case::Iter(IterCase { env: e, ..c.clone() }));
             }
+            if c.interleave {
+                out.push(Case::Iter(IterCase { interleave: false, ..c.clone() }));
+            }
         }
         Case::Merge(c) => {
             // drop runs of sources (halves, quarters, ... single ones); candidate lists stay linear in k
